@@ -350,7 +350,11 @@ def run_actions(env, case, actions, where):
                 r = run_actions(env, case, body, "cleanup:" + cid)
                 env.log("cleanup_leave", cid)
                 return r
-            case.addCleanup(cleanup)
+            if len(a) > 3 and a[3] == "kw":
+                # addCleanup(function, *arguments, **keywordArguments): the documented full form
+                case.addCleanup(lambda cid, body=None, fn=cleanup: fn(cid, body), cid, body=body)
+            else:
+                case.addCleanup(cleanup)
         elif op == "detail":
             name, pid, chunks, ctype = a[1], a[2], a[3], a[4]
             env.log("detail", name, pid, _existing(case, name), "".join(chunks), ctype)
